@@ -82,14 +82,53 @@ class Run(object):
         self.other_clause_failures = {}
         self.samples = []
         self.extra = {}
+        self.mc_states = 0
+        self.mc_transitions = 0
+        self.divergences = 0
 
     def close(self):
         shutil.rmtree(self.tmp, ignore_errors=True)
 
     # -- exploration + validation ------------------------------------------------------------
     def add_jobs(self, jobs, procs=16, batch_nodes=12000, tlc_workers=16):
+        self.add_results(explore_all(jobs, procs), batch_nodes, tlc_workers)
+
+    def add_mc(self, defs, own, max_pause=0, max_cancel=0, max_steps=14, known=None, replay=True,
+               lang="yaql", timeout=900):
+        """TLC model-checks Spec B + Props on `defs`; the behaviours it generated (leaf schedules,
+        and the counterexample if an invariant failed) are replayed into the real conductor and
+        validated like explored trees; digest mismatches are divergences."""
+        from . import mc
+        if known is None:
+            known = sorted({k["signature"] for k in load_known_findings() if k.get("status", "open") == "open"})
+        defs = [dict(d, name="m%d_%s" % (i, d["name"])) for i, d in enumerate(defs)]
+        res = mc.run_mc(defs, self.tmp, own, max_pause, max_cancel, max_steps, known, emit=replay,
+                        timeout=timeout, tag="mc%d" % len(self.extra.get("mc_runs", [])))
+        info = {"defs": len(defs), "states": res["distinct"], "transitions": res["states"],
+                "wall_s": round(res["wall"], 1), "max_pause": max_pause, "max_cancel": max_cancel,
+                "max_steps": max_steps, "spec_violation": res["violated"], "leaves": len(res["leaves"])}
+        self.extra.setdefault("mc_runs", []).append(info)
+        self.mc_states += res["distinct"]
+        self.mc_transitions += res["states"]
+        leaves = list(res["leaves"])
+        if res["violated"]:
+            cx = _counterexample(res["out"])
+            if cx:
+                leaves.append(cx)
+                info["counterexample"] = cx
+        elif res["rc"] != 0:
+            self.machinery.append("MC tlc rc=%s\n%s" % (res["rc"], res["out"][-3000:]))
+        if replay and leaves:
+            rr = mc.replay_leaves(defs, leaves, lang=lang)
+            mism = [m for r in rr if r.get("ok") for m in r["mismatches"]]
+            self.divergences += len(mism)
+            if mism:
+                self.extra.setdefault("divergence_samples", []).extend(mism[:3])
+            self.add_results(rr, 12000, 16)
+        return res
+
+    def add_results(self, results, batch_nodes=12000, tlc_workers=16):
         from . import tlc
-        results = explore_all(jobs, procs)
         bad = [r for r in results if not r["ok"]]
         for b in bad:
             self.machinery.append("explore: " + b["err"][:2000])
@@ -223,7 +262,9 @@ class Run(object):
         distinct = len({json.dumps(r["d"]["tasks"], sort_keys=True) + json.dumps(r["env"], sort_keys=True)
                         for r in self.results if len(r["tree"]["nodes"]) > 4})
         cov = {
-            "states": self.states, "transitions": self.transitions,
+            "states": self.states + self.mc_states, "transitions": self.transitions + self.mc_transitions,
+            "spec_b_states": self.mc_states, "trace_validation_states": self.states,
+            "spec_vs_code_divergences": self.divergences,
             "traces_validated_against_impl": self.trees,
             "steps_validated_against_impl": self.nodes,
             "evaluations": self.nodes, "distinct_nontrivial": distinct,
@@ -255,6 +296,21 @@ class Run(object):
         print("OK property=%s tier=%s trees=%d steps=%d tlc_states=%d known=%d wall=%.1fs" % (
             self.prop, self.tier, self.trees, self.nodes, self.states, len(known), time.time() - self.t0))
         return 0
+
+
+def _counterexample(out):
+    """schedule of the last state of TLC's error trace (variable `sched`), with its definition."""
+    import re
+    ms = re.findall(r"/\\ sched = (<<.*?>>)\n", out, re.S)
+    ds = re.findall(r"/\\ di = (\d+)", out)
+    if not ms or not ds:
+        return None
+    txt = ms[-1].replace("<<", "[").replace(">>", "]")
+    try:
+        sched = json.loads(txt)
+    except Exception:
+        return None
+    return {"def_index": int(ds[-1]), "sched": sched, "digest": None, "def": None}
 
 
 def load_known_findings():
